@@ -76,9 +76,10 @@ func shortCallee(fn *ssa.Function) string {
 }
 
 func (r *FnRun) havocAll(st *State) {
-	for _, m := range MemNames {
-		st.mem[m] = st.declare(r.freshName(m+"_h"), memSort(m))
+	for _, m := range allArrays(st) {
+		st.mem[m] = st.declare(r.freshName(m+"_h"), fieldArraySort(r.arrElemSort(m)))
 	}
+	st.epoch++
 	st.writes++
 }
 
@@ -101,6 +102,9 @@ func (r *FnRun) builtin(st *State, x *ssa.Call, bi *ssa.Builtin, args []Val) Val
 				return BVInt(at.Len(), 64, true)
 			}
 		}
+	}
+	if bi.Name() == "append" {
+		return r.builtinAppend(st, x, args)
 	}
 	panic(unsupported("builtin " + bi.Name()))
 }
@@ -203,18 +207,26 @@ func (r *FnRun) applyContract(st *State, x *ssa.Call, callee *ssa.Function, c *F
 	return result, false
 }
 
-// modifies items: nothing | everything | bytes(p, n) | <pointer>.<field> | fresh
+// modifies items: nothing | everything | bytes(p, n) | <pointer>.<field> | object(p)
 type modRange struct {
 	Lo, N Term // [Lo, Lo+N)
 }
 
-func (r *FnRun) modRanges(env *Env, c *FuncContract) (ranges []modRange, everything bool) {
+type modSpec struct {
+	ranges []modRange          // raw memory (width arrays)
+	fields map[string][]Term   // field array -> object addresses whose entry may change
+	all    bool
+}
+
+func (r *FnRun) modSpecOf(env *Env, c *FuncContract) *modSpec {
+	ms := &modSpec{fields: map[string][]Term{}}
 	for _, m := range c.Modifies {
 		if m == "nothing" {
 			continue
 		}
 		if m == "everything" {
-			return nil, true
+			ms.all = true
+			return ms
 		}
 		ex, err := ParseExpr("f(" + m + ")")
 		if err != nil {
@@ -223,19 +235,35 @@ func (r *FnRun) modRanges(env *Env, c *FuncContract) (ranges []modRange, everyth
 		for _, a := range ex.(*ECall).Args {
 			if call, ok := a.(*ECall); ok {
 				if id, ok := call.Fn.(*EIdent); ok && id.Name == "bytes" {
-					ranges = append(ranges, modRange{env.evalTerm(call.Args[0]), env.evalTerm(call.Args[1])})
+					ms.ranges = append(ms.ranges, modRange{env.evalTerm(call.Args[0]), env.evalTerm(call.Args[1])})
+					continue
+				}
+				if id, ok := call.Fn.(*EIdent); ok && id.Name == "object" {
+					v, t := env.evalT(call.Args[0])
+					base, ok := v.(Term)
+					if !ok || t == nil {
+						env.fail("object(%s): not a typed pointer", call.Args[0])
+					}
+					pt, ok := t.Underlying().(*types.Pointer)
+					if !ok {
+						env.fail("object(%s): not a pointer", call.Args[0])
+					}
+					for _, ai := range r.objectArrays(pt.Elem(), base) {
+						r.memArrS(env.st, ai.Arr, ai.Sort)
+						ms.fields[ai.Arr] = append(ms.fields[ai.Arr], ai.Idx)
+					}
 					continue
 				}
 			}
-			lo, n := env.addrOf(a)
-			ranges = append(ranges, modRange{lo, n})
+			env.addrOf(a, ms)
 		}
 	}
-	return
+	return ms
 }
 
-// addrOf gives address and size of an lvalue expression p.f (p a pointer to struct).
-func (e *Env) addrOf(x Expr) (Term, Term) {
+// addrOf resolves an lvalue expression p.f (p a pointer to struct) to the
+// field arrays it occupies.
+func (e *Env) addrOf(x Expr, ms *modSpec) {
 	sel, ok := x.(*ESel)
 	if !ok {
 		e.fail("modifies item %s is not an lvalue", x)
@@ -255,11 +283,27 @@ func (e *Env) addrOf(x Expr) (Term, Term) {
 	}
 	for i := 0; i < stt.NumFields(); i++ {
 		if stt.Field(i).Name() == sel.Name {
-			return Add(base, BVInt(e.r.fieldOffset(stt, i), 64, false)), BVInt(e.r.E.Sizes.Sizeof(stt.Field(i).Type()), 64, false)
+			comps, ok := e.r.fieldComps(structKey(pt.Elem()), stt, i)
+			if !ok {
+				off := BVInt(e.r.fieldOffset(stt, i), 64, false)
+				if _, isS := stt.Field(i).Type().Underlying().(*types.Struct); isS {
+					for _, ai := range e.r.objectArrays(stt.Field(i).Type(), Add(base, off)) {
+						e.r.memArrS(e.st, ai.Arr, ai.Sort)
+						ms.fields[ai.Arr] = append(ms.fields[ai.Arr], ai.Idx)
+					}
+					return
+				}
+				ms.ranges = append(ms.ranges, modRange{Add(base, off), BVInt(e.r.E.Sizes.Sizeof(stt.Field(i).Type()), 64, false)})
+				return
+			}
+			for _, c := range comps {
+				e.r.memArrS(e.st, c.Arr, c.Sort)
+				ms.fields[c.Arr] = append(ms.fields[c.Arr], base)
+			}
+			return
 		}
 	}
 	e.fail("modifies item %s: no such field", x)
-	return Term{}, Term{}
 }
 
 func inRanges(a Term, ranges []modRange) Term {
@@ -272,50 +316,76 @@ func inRanges(a Term, ranges []modRange) Term {
 	return Or(ds...)
 }
 
+// mayChange: address a of array m is covered by the modifies specification.
+func (ms *modSpec) mayChange(m string, a Term) Term {
+	if strings.HasPrefix(m, "F!") {
+		var ds []Term
+		for _, b := range ms.fields[m] {
+			ds = append(ds, Eq(a, b))
+		}
+		return Or(ds...)
+	}
+	return inRanges(a, ms.ranges)
+}
+
+func (ms *modSpec) touches(m string) bool {
+	if strings.HasPrefix(m, "F!") {
+		return len(ms.fields[m]) > 0
+	}
+	return len(ms.ranges) > 0
+}
+
 func (r *FnRun) havocModifies(st *State, env *Env, c *FuncContract) {
-	ranges, all := r.modRanges(env, c)
-	if all {
+	ms := r.modSpecOf(env, c)
+	if ms.all {
 		r.havocAll(st)
 		return
 	}
-	if len(ranges) == 0 {
-		return
-	}
-	st.writes++
-	for _, m := range MemNames {
-		old := st.memArr(m)
-		nw := st.declare(r.freshName(m+"_c"), memSort(m))
+	names := allArrays(st)
+	changed := false
+	for _, m := range names {
+		if !ms.touches(m) {
+			continue
+		}
+		changed = true
+		old := r.arr(st, m)
+		nw := st.declare(r.freshName(m+"_c"), fieldArraySort(r.arrElemSort(m)))
 		a := Term{"a!f", BV(64, false)}
-		st.assume(Forall([]Term{a}, Implies(Not(inRanges(a, ranges)), Ident(Select(nw, a), Select(old, a)))), "frame of "+c.Key)
+		st.assume(Forall([]Term{a}, Implies(Not(ms.mayChange(m, a)), Ident(Select(nw, a), Select(old, a)))), "frame of "+c.Key)
 		st.mem[m] = nw
+	}
+	if changed {
+		st.writes++
 	}
 }
 
-// frameTerm: every address outside the modifies ranges (and outside memory
-// allocated during the call) holds its entry value.
-func (r *FnRun) frameTerm(st *State, m string, ranges []modRange) Term {
+// frameTerm: every address outside the modifies specification (and outside
+// memory allocated during the call) holds its entry value.
+func (r *FnRun) frameTerm(st *State, m string, ms *modSpec) Term {
 	a := Term{"a!f", BV(64, false)}
 	var ex []Term
-	ex = append(ex, inRanges(a, ranges))
+	if ms != nil {
+		ex = append(ex, ms.mayChange(m, a))
+	}
 	for _, rg := range st.regions {
 		if rg.Fresh {
 			ex = append(ex, And(rg.Cond, inRanges(a, []modRange{{rg.Base, rg.Size}})))
 		}
 	}
-	return Forall([]Term{a}, Implies(Not(Or(ex...)), Ident(Select(st.memArr(m), a), Select(r.Entry.memArr(m), a))))
+	return Forall([]Term{a}, Implies(Not(Or(ex...)), Ident(Select(r.arr(st, m), a), Select(r.arr(r.Entry, m), a))))
 }
 
 func (r *FnRun) frameGoals(o *Outcome) {
 	env := r.env(r.Entry, r.Entry)
-	ranges, all := r.modRanges(env, r.C)
-	if all {
+	ms := r.modSpecOf(env, r.C)
+	if ms.all {
 		return
 	}
-	for _, m := range MemNames {
-		if o.St.mem[m].S == r.Entry.mem[m].S {
+	for _, m := range allArrays(o.St) {
+		if o.St.mem[m].S == r.arr(r.Entry, m).S {
 			continue
 		}
-		r.addGoal(o.St, "frame."+m, "", r.frameTerm(o.St, m, ranges), nil)
+		r.addGoal(o.St, "frame."+m, "", r.frameTerm(o.St, m, ms), nil)
 	}
 }
 
@@ -399,3 +469,62 @@ const (
 )
 
 var lockOps = map[string]lockOpKind{}
+
+// builtinAppend: trusted model of Go's append(a, b...) on slices
+// (Go spec, "Appending to and copying slices"): the result has length
+// len(a)+len(b), shares a's array iff the capacity suffices, otherwise is a
+// fresh array; elements of a then of b.
+func (r *FnRun) builtinAppend(st *State, x *ssa.Call, args []Val) Val {
+	r.E.Trusted["go builtin append(a, b...): len = len(a)+len(b); in place iff len(a)+len(b) <= cap(a), else fresh array holding a's elements; b's elements follow (Go spec)"] = true
+	a, ok1 := args[0].(*StructVal)
+	b, ok2 := args[1].(*StructVal)
+	if !ok1 || !ok2 {
+		panic(unsupported("append on non-slice values"))
+	}
+	sl, ok := x.Type().Underlying().(*types.Slice)
+	if !ok {
+		panic(unsupported("append result type"))
+	}
+	es := r.E.Sizes.Sizeof(sl.Elem())
+	li := &loopInfo{mems: map[string]bool{}}
+	r.markMems(li, sl.Elem())
+	la, ca := a.F[1].(Term), a.F[2].(Term)
+	lb := b.F[1].(Term)
+	if bs, isStr := x.Call.Args[1].Type().Underlying().(*types.Basic); isStr && bs.Info()&types.IsString != 0 {
+		li.mems = map[string]bool{"M8": true} // append([]byte, string...)
+	}
+	n := st.name("app_n", Add(la, lb))
+	fits := st.name("app_fits", Le(n, ca))
+	p := st.declare(r.freshName("app_new"), BV(PtrW, false))
+	nc := st.declare(r.freshName("app_cap"), BV(64, true))
+	esz := BVInt(es, 64, false)
+	u := func(t Term) Term { return Term{t.S, BV(64, false)} }
+	// the new array exists only when the capacity did not suffice
+	s2 := st
+	for _, rg := range s2.regions {
+		st.assume(Implies(And(Not(fits), rg.Cond), disjointTerm(p, Mul(u(nc), esz), rg.Base, rg.Size)), "append: new array is fresh")
+	}
+	st.assume(Implies(Not(fits), And(Le(n, nc), Lt(nc, BVInt(1<<40, 64, true)), validTerm(p, Mul(u(nc), esz)), Not(Eq(p, BVInt(0, 64, false))))), "append: new array")
+	st.regions = append(st.regions, Region{Base: p, Size: Mul(u(nc), esz), Fresh: true, Cond: Not(fits)})
+	data := st.name("app_data", Ite(fits, a.F[0].(Term), p))
+	cp := st.name("app_c", Ite(fits, ca, nc))
+	dst0 := st.name("app_dst", Add(data, Mul(u(la), esz)))
+	lbBytes := st.name("app_lb", Mul(u(lb), esz))
+	laBytes := st.name("app_la", Mul(u(la), esz))
+	for _, m := range MemNames {
+		if !li.mems[m] {
+			continue
+		}
+		old := st.memArr(m)
+		nw := st.declare(r.freshName(m+"_app"), memSort(m))
+		k := Term{"a!p", BV(64, false)}
+		inB := And(Le(dst0, k), Lt(k, Add(dst0, lbBytes)))
+		inA := And(Not(fits), Le(data, k), Lt(k, Add(data, laBytes)))
+		body := Ident(Select(nw, k), Ite(inB, Select(old, Add(b.F[0].(Term), Sub(k, dst0))),
+			Ite(inA, Select(old, Add(a.F[0].(Term), Sub(k, data))), Select(old, k))))
+		st.assume(Forall([]Term{k}, body), "append effect on "+m)
+		st.mem[m] = nw
+	}
+	st.writes++
+	return &StructVal{T: x.Type(), N: sliceFields, F: []Val{data, n, cp}}
+}
